@@ -12,7 +12,9 @@ import (
 	"errors"
 	"fmt"
 	"io"
+	"os"
 	"regexp"
+	"runtime"
 	"sort"
 	"strconv"
 	"strings"
@@ -344,6 +346,8 @@ func GenOp(r *verifh.Rng, apis, classes []string, maxLen int, allowReject bool) 
 		end = "err:" + classes[r.Intn(len(classes))]
 	case x < 68: // the body panics after all statements
 		end = r.PickS("panic", "panic", "panicerr", "panicnil")
+	case x < 72: // outside the quantifier (informational): exits that recover() != nil cannot see
+		end = r.PickS("goexit", "panicnil1")
 	default: // body succeeds: commit decides
 	}
 	// the statement fault ends the body early; what would follow is still generated (must not run)
@@ -526,6 +530,13 @@ func RunOp(op []string, h Hooks) string {
 			panic(NewSrcErr("panic", nil))
 		case "panicnil":
 			panic(nil)
+		case "panicnil1": // outside the property's quantifier: GODEBUG=panicnil=1 is set around the call
+			bodyOut = "nilpanic"
+			panic(nil)
+		case "goexit": // outside the property's quantifier
+			bodyOut = "goexit"
+			runtime.Goexit()
+			return nil
 		default:
 			bodyOut = "err:" + strings.TrimPrefix(strings.SplitN(Classify(endErr, h.Extra), "/", 2)[0], "is:")
 			return endErr
@@ -534,14 +545,34 @@ func RunOp(op []string, h Hooks) string {
 	var ret error
 	var mark string
 	escaped := ""
-	func() {
+	returned := false
+	if m["end"] == "panicnil1" {
+		old, had := os.LookupEnv("GODEBUG")
+		os.Setenv("GODEBUG", "panicnil=1")
+		defer func() {
+			if had {
+				os.Setenv("GODEBUG", old)
+			} else {
+				os.Unsetenv("GODEBUG")
+			}
+		}()
+	}
+	// the call runs on its own goroutine so that a body ending in runtime.Goexit can be observed
+	done := make(chan struct{})
+	go func() {
+		defer close(done)
 		defer func() {
 			if p := recover(); p != nil {
 				escaped = strings.ReplaceAll(fmt.Sprint(p), " ", "_")
 			}
 		}()
 		ret, mark = h.Call(m["api"], m["brk"] != "reject", body)
+		returned = true
 	}()
+	<-done
+	if escaped == "" && !returned {
+		return fmt.Sprintf("log=%s runs=%d body=%s ret=noreturn mark=-", h.Plan.Log(), runs, bodyOut)
+	}
 	if escaped != "" {
 		return fmt.Sprintf("log=%s runs=%d body=%s ret=PANICKED:%s", h.Plan.Log(), runs, bodyOut, escaped)
 	}
